@@ -65,6 +65,11 @@ func newCompressionPool(
 	newDecompressor func() Decompressor,
 	newCompressor func() Compressor,
 ) *compressionPool {
+	if newDecompressor == nil || newCompressor == nil {
+		// Without both constructors there is nothing to pool, and the options
+		// built on top of this are documented as no-ops.
+		return nil
+	}
 	return &compressionPool{
 		decompressors: sync.Pool{
 			New: func() any { return newDecompressor() },
